@@ -46,48 +46,55 @@ CHECKS = {
                   "readline of parent + 1 child (all), parent + 2 children (<=2 quick / <=3 preemptions), grandchildren of an idle and of a reading child, 3-read sequences (thorough); every read of every process must equal the reference line."),
  "C06": dict(engine="seqmc", technique="explicit-state exploration of the real object vs a nondeterministic ordered-dict reference (whole reachable graph per capacity)",
              text="Whole reachable state graph of the real LRUCache for capacities 1-3 (quick) / 1-4, keys {0..c}, 2 values, under the full MutableMapping menu (store, lookup, delete, in, len, "
-                  "views, get, pop, popitem, clear, update, setdefault, ==); reference = set of possible ordered dicts (latitude for `in`, popitem, view look-ups); every library call under a "
+                  "views, get, pop, popitem, clear, update with dicts and pair lists, setdefault, ==, two look-ups back to back, an iteration left open while look-ups / nested "
+                  "iterations go on); a second cache alive all the time must stay untouched; reference = set of possible ordered dicts (latitude for `in`, popitem, view look-ups); every library call under a "
                   "deterministic step budget (termination); internal dict/list agreement and link walk after every transition.", ref="5/C06", note=SEQ_NOTE),
  "C07": dict(engine="seqmc", technique="explicit-state exploration of the real object vs a nondeterministic use-count reference (depth-bounded, state dedup with subsumption)",
-             text="All operation sequences on the real LFUCache to depth 8 (capacities 1-2) / 4 quick - 6 thorough (capacity 3) from an empty and a warm cache; reference key -> (value, count) sets "
+             text="All operation sequences (same menu as C06, macro operations count as one step) on the real LFUCache to depth 8 quick / 9-10 thorough (capacities 1-2) and 3 quick / 5 thorough "
+                  "(capacity 3) from an empty and a warm cache; reference key -> (value, count) sets "
                   "with latitude for `in` and view look-ups; oracle: latest value, single victim with minimal count, non-decreasing iteration order, views terminate and agree.", ref="5/C07", note=SEQ_NOTE),
  "C08": dict(engine="seqmc", technique="explicit-state exploration of the real object vs reference model (whole reachable graph, bounded size)",
-             text="Every mutator applied in every reachable state (list size <= 5 quick / 7 thorough) of the real DoublyLinkedList in three payload modes "
-                  "(distinct, all equal, uncomparable), each followed by a full forward/backward link walk, len() and iteration against a list of node "
+             text="Every mutator applied in every reachable state (list size <= 5 quick / 7 thorough) of the real DoublyLinkedList in four payload modes "
+                  "(distinct, all equal, uncomparable, nodes of another list), sources of extend incl. raising iterables and other DoublyLinkedLists, each followed by a full forward/backward link walk, len() and iteration against a list of node "
                   "identities; plus a recursion probe on a 64-element run of equal payloads. Exhaustive over that space; payload renaming is the only symmetry used.",
              ref="5/C08", note=SEQ_NOTE),
  "C09": dict(engine="seqmc", technique="explicit-state exploration of the real object vs builtin set/dict (all initialisers up to a length, whole reachable graph)",
              text="All initialisers over a 6-value mixed int/float alphabet (len <=2 quick / <=4 thorough; list, iterator, dict, pairs) and from each the whole reachable graph under the "
                   "full MutableSet / MutableMapping menu incl. set operators; after every step strict ascent, content, len, membership and lookup vs builtin set/dict; foreign-typed probes must "
-                  "answer absent and leave the canonical state unchanged.", ref="5/C09", note=SEQ_NOTE),
+                  "answer absent and leave the canonical state unchanged; sparse mode (look-ups only as operations), copy-constructed, big-int and edge-value (inf, 2**53+1) explorations, "
+                  "decoy instances, nested iterations.", ref="5/C09", note=SEQ_NOTE),
  "C10": dict(engine="seqmc", technique="exhaustive input enumeration over a small span universe vs brute-force membership formulas",
-             text="Every span list (3-point universe len<=3 quick; 4-point and longer thorough) through all constructor forms, every ordered pair of constructed contents x all 4x4 relation "
-                  "pairs x 13 operators against the docstring definitions evaluated by brute force with harness-side relations.", ref="5/C10", note=SEQ_NOTE),
+             text="Every span list (3-point universe len<=3 quick; 4-point and longer thorough) through all constructor forms (incl. a SpanSet as the collection), every ordered pair of constructed contents x all 4x4 relation "
+                  "pairs x 13 operators against the docstring definitions evaluated by brute force with harness-side relations; operands also obtained by copy() + relation "
+                  "re-assignment and from tuples with force_no_dup_check.", ref="5/C10", note=SEQ_NOTE),
  "C11": dict(engine="seqmc", technique="exhaustive enumeration of file contents over a 4-character alphabet x variants x index sources + explicit-state exploration of read histories vs str.split",
              text="Every file content over {a, e-acute, LF, CR} of length <=4 (quick) / <=6 plus buffer-boundary and whitespace probe files, 8 file classes, index built / list / index file / every "
-                  "sub-list and permutation of offsets (<=3); len, every index in [-n-2,n+1], slices, index iterables, full iterations; read histories (index, slice, two iterators, next, list) "
+                  "sub-list and permutation of offsets (<=3); len, every index in [-n-2,n+1], slices, index iterables, full iterations; read histories (index, slice, two iterators, next, list, close()+open() under a live iteration) "
                   "to depth 3 (quick) / 5 by BFS with state dedup; reference content.split('\\n').", ref="5/C11", note=SEQ_NOTE),
  "C12": dict(engine="seqmc", technique="explicit-state exploration of edit histories on the real file objects vs a Python list (depth-bounded, state dedup)",
-             text="All edit sequences (10 mutators, all indices in [-n-1,n], 3 strings) to depth 2-3 quick / 3-4 thorough from 66 source files x 4 variants; after every step observation, len, "
+             text="All edit sequences (10 mutators, all indices in [-n-1,n], 3 strings) to depth 2-3 quick / 3-4 thorough from 66 source files x 4 variants (incl. a str-subclass line, a generator as extend argument, removal of a record whose source text is not canonical); after every step observation, len, "
                   "items, slices, dirty flag and source bytes vs a list model; in every distinct state save() with 5 line endings (bytes) and reopen.", ref="5/C12", note=SEQ_NOTE),
  "C13": dict(engine="seqmc", technique="exhaustive input enumeration (field values over small alphabets) + explicit-state exploration of record-file edit histories",
              text="All records of 39 field-type sequences x JSON/CSV/TSV over critical-character strings (len<=2 quick / <=4 thorough), ints, floats, JSON nestings: load(save(r))==r, one line, "
-                  "read back through 4 file variants; all save-call histories of length <=3 vs a fresh module; mutable record file edit histories saved and reopened.", ref="5/C13", note=SEQ_NOTE),
+                  "read back through 4 file variants; all save-call histories of length <=3 vs a fresh module; mutable record file edit histories saved and reopened; record class shapes (derived classes, "
+                  "init=False, defaults, slots, kw_only, cached_property) and str fields of up to 400000 characters.", ref="5/C13", note=SEQ_NOTE),
  "C15": dict(engine="seqmc", technique="exhaustive enumeration of arrival permutations x drain subsets and of put/clear histories vs reference",
-             text="Buffer/PrintBuffer: every permutation of n<=5 (quick) / 7 serials x every subset of drain points, flush/clear histories; CircularBuffer capacities 1-4, every put/clear "
+             text="Buffer/PrintBuffer: every permutation of n<=5 (quick) / 7 serials x every subset of drain points, flush/clear histories, long runs (400 in order, 1500 reversed); CircularBuffer capacities 1-4, every put/clear "
                   "sequence to depth 8/10 with all index probes.", ref="5/C15", note=SEQ_NOTE),
  "C16": dict(engine="seqmc", technique="exhaustive input enumeration (interval sets on a grid, all insertion orders, all probes) vs linear scan",
-             text="Every ordered sequence of <=3 (quick) / <=4 intervals on an integer and a halved grid incl. degenerate and inverted ones; construction must raise KeyError exactly when "
-                  "invalid/overlapping; every probe on the half-step grid vs linear scan; in, len, ascending iteration.", ref="5/C16", note=SEQ_NOTE),
+             text="Every ordered sequence of <=3 (quick) / <=4 intervals on an integer and a halved grid incl. degenerate and inverted ones, and (<=2 / <=3 intervals) on a grid of integers around 10**12 and one of adjacent floats; construction must raise KeyError exactly when "
+                  "invalid/overlapping; every probe on the half-step grid (resp. every grid point and its neighbours) vs linear scan; in, len, ascending, repeated and interleaved iteration; the caller's dict is "
+                  "modified after construction.", ref="5/C16", note=SEQ_NOTE),
  "C17": dict(engine="seqmc", technique="exhaustive input enumeration (score vectors, keys, intervals) vs itertools brute force",
              text="All score vectors in {0..3}^n (n<=4 quick / more thorough) x 4 monotone keys x yield_key: output is a permutation of all index-ordered combinations in non-decreasing key order; "
-                  "every interval [i_start,i_end) vs brute-force minimum.", ref="5/C17", note=SEQ_NOTE),
+                  "every interval [i_start,i_end) vs brute-force minimum (also over unorderable, unhashable elements; large scores 10**12).", ref="5/C17", note=SEQ_NOTE),
  "C19": dict(engine="seqmc", technique="exhaustive input enumeration (complete domain 1..3999; all sequences up to a length) vs independent references",
              text="Roman numerals over the complete domain; arg_sort, sub_seq, search_sub_seq, compare_pos_in_iterables over all sequences of a small alphabet up to a length; Batcher/BatcherIter "
                   "for all (n<=9, batch<=10) and shapes.", ref="5/C19", note=SEQ_NOTE),
  "C20": dict(engine="seqmc", technique="exhaustive enumeration of create/remove/flush/raise histories on the real TmpPool (incl. real manager and forked children) and FilePool",
              text="All histories to depth 5 (quick) / 8 for the single-process pool with 4 ways of leaving the context; multi_proc with a real Manager and forked children: all op->actor assignments "
-                  "to depth 3/4; FilePool: all file subsets x modes x body op sequences x exits, handle and fd-count oracle.", ref="5/C20",
+                  "to depth 3/4; FilePool: all file subsets x modes x body op sequences x exits, handle and fd-count oracle; plus (engine A) all schedules of a child creating while the parent "
+                  "creates / removes / flushes / leaves, and pools entered in a really forked child.", ref="5/C20",
              note=SEQ_NOTE + " Real multiprocessing.Manager and fork for the multi_proc part (histories, not schedules)."),
 }
 PENDING = {}
